@@ -29,13 +29,15 @@ GOOD = [
     ("emoji_u42.svg", '<svg xmlns="http://www.w3.org/2000/svg" viewBox="0 0 100 100"><path d="M10,90 L50,20 L90,90 Z" fill="#771199"/></svg>'),
 ]
 BODY = '<rect x="15" y="15" width="55" height="35" fill="{fill}"/>'
-DEFECTS = ["dup-scheme", "dup-case", "malformed-xml", "truncated-xml", "unknown-colour", "pattern-paint", "missing-gradient", "bad-spread", "palette-conflict", "masters-mismatch", "bitmap-too-big"]
+DEFECTS = ["dup-basename", "dup-scheme", "dup-case", "malformed-xml", "truncated-xml", "unknown-colour", "pattern-paint", "missing-gradient", "bad-spread", "palette-conflict", "masters-mismatch", "bitmap-too-big"]
 VECTOR_FORMATS = ["glyf_colr_1", "glyf_colr_0", "picosvg", "glyf", "cff_colr_1"]
 
 
 def make_defect(kind, r):
     """-> (list of (name, text), formats where it applies, extra flags, description)"""
     S = lambda body, defs="": f'<svg xmlns="http://www.w3.org/2000/svg" viewBox="0 0 100 100">{defs}{body}</svg>'
+    if kind == "dup-basename":
+        return [("stock/emoji_u1f601.svg", S(BODY.format(fill="#010203"))), ("override/emoji_u1f601.svg", S(BODY.format(fill="#a0b0c0")))], VECTOR_FORMATS + ["untouchedsvg"], [], "the same file name in two source directories"
     if kind == "dup-scheme":
         return [("emoji_u1f600.svg", S(BODY.format(fill="#010203"))), ("1f600.svg", S(BODY.format(fill="#a0b0c0")))], VECTOR_FORMATS + ["untouchedsvg", "cbdt"], [], "two files -> U+1F600"
     if kind == "dup-case":
@@ -149,7 +151,7 @@ def run_cli(case):
 
                 seen = {}
                 for n in names:
-                    q = tuple(cpmod.from_filename(os.path.splitext(n)[0]))
+                    q = tuple(cpmod.from_filename(os.path.splitext(os.path.basename(n))[0]))
                     reached = rc.reach(f, q)
                     if len(reached) != 1:
                         problems.append(f"{n}: sequence reaches {reached}")
@@ -174,7 +176,7 @@ def run_cli(case):
 def run_inproc(case):
     from vf.drive import inproc
 
-    kinds = [k for k in DEFECTS if k not in ("masters-mismatch",)]
+    kinds = [k for k in DEFECTS if k not in ("masters-mismatch", "dup-basename")]  # those two only exist for the driver
     r = common.rng(ID, "ip", case["seed"], case["i"])
     kind = kinds[case["i"] % len(kinds)]
     bad, fmts, flags, desc = make_defect(kind, r)
